@@ -3,7 +3,7 @@
 // FixtureDatabase::scan_workspace_with_excludes touches outside the repo: walkdir, std::path::strip_prefix /
 // canonicalize / to_string_lossy, glob::Pattern::matches, std::fs::read_to_string, AtomicUsize, Mutex::lock.
 // Every item below that is `external_body`, `assume_specification` or `axiom` is an ASSUMPTION; each is listed with
-// its statement in the unit's report (W1..W6, P5..P9, G1, F1, A1, L1).
+// its statement in the unit's report (W1..W5, P5..P8, G1, F1, A1, L1, R1, R2, C5 canon).
 
 // ---- walkdir 2 (W*) -----------------------------------------------------------------------------------------------
 /// walkdir::DirEntry, opaque; what the scanner reads from it, as uninterpreted views
@@ -181,3 +181,13 @@ pub assume_specification<T, E, F>[ Result::<T, E>::unwrap_or_else ](r: Result<T,
 pub uninterp spec fn fs_is_file(p: PV) -> bool;
 pub assume_specification[ Path::is_file ](p: &Path) -> (r: bool)
     ensures r == fs_is_file(pv(p));
+
+// ---- canonical paths as the database sees them (C5) ------------------------------------------------------------------
+/// what FixtureDatabase::get_canonical_path returns for a path (canonical_path_cache, else Path::canonicalize, else the
+/// path itself): an abstract FUNCTION of the path.  Unit memo_keys proves the real body returns canon_now(path) under
+/// its cache invariant (one file-system state); here only "the same path always gets the same answer" is used — the
+/// scan's pre-check and analyze_file_fresh's file_cache key are both this function of the collected path.
+pub uninterp spec fn canon(p: PV) -> PV;
+pub open spec fn canon_fn() -> spec_fn(PV) -> PV { |p: PV| canon(p) }
+/// MAX_FILE_CACHE_SIZE of src/fixtures/mod.rs: evict_cache_if_needed drops entries only above this size
+pub open spec fn max_file_cache() -> nat { 2000 }
